@@ -161,11 +161,30 @@ async fn scenario(mon: &Monitor, rng: &mut Rng) {
                 // ---- put ----
                 let value = value_for(op, ki, len, rng);
                 let expected_targets: Option<BTreeSet<usize>> = if fault_free {
-                    // same quiescent, fault-free state: the lookup put() is specified to use
-                    match w.nodes[x].mgr.find_closest_nodes(&key, repl).await {
-                        Ok(v) => Some(v.iter().filter_map(|d| w.spell.get(&d.peer_id).copied()).filter(|i| *i != x).collect()),
-                        Err(_) => None,
+                    // same quiescent, fault-free state: the lookup put() is specified to use. A lookup also
+                    // teaches the node new peers (sparse topologies), so the reference is taken only once
+                    // a lookup no longer changes what the node knows and two lookups in a row agree
+                    let mut exp: Option<BTreeSet<usize>> = None;
+                    let mut stable = false;
+                    for _ in 0..3 {
+                        let know0 = (w.nodes[x].mgr.verif_routing_snapshot().await.len(), w.nodes[x].mgr.verif_dht_peers().await.iter().filter(|p| p.2).count());
+                        let got: Option<BTreeSet<usize>> = match w.nodes[x].mgr.find_closest_nodes(&key, repl).await {
+                            Ok(v) => Some(v.iter().filter_map(|d| w.spell.get(&d.peer_id).copied()).filter(|i| *i != x).collect()),
+                            Err(_) => None,
+                        };
+                        settle(Duration::from_millis(20)).await;
+                        let know1 = (w.nodes[x].mgr.verif_routing_snapshot().await.len(), w.nodes[x].mgr.verif_dht_peers().await.iter().filter(|p| p.2).count());
+                        if got.is_some() && got == exp && know0 == know1 {
+                            stable = true;
+                            break;
+                        }
+                        exp = got;
                     }
+                    if !stable {
+                        mon.count("skipped.targets-reference-lookup-still-changing-the-node's-knowledge", 1);
+                        exp = None;
+                    }
+                    exp
                 } else {
                     None
                 };
